@@ -142,9 +142,10 @@ func C02(tier string) int {
 		for _, slot := range []uint64{0, 1} {
 			ops2 = append(ops2, SOp{Kind: "twin-prop", Ents: []Ent{{Key: k, Slot: slot, Root: 2}}})
 		}
-		// The same proposals served while the store refuses writes.
+		// The same proposals served while the store refuses writes, and while its reads fail.
 		for _, slot := range []uint64{0, 1} {
 			ops2 = append(ops2, SOp{Kind: "prop", Fault: "write", Ents: []Ent{{Key: k, Slot: slot, Root: 1}}})
+			ops2 = append(ops2, SOp{Kind: "prop", Fault: "read", Ents: []Ent{{Key: k, Slot: slot, Root: 2}}})
 		}
 	}
 	InstallSigFaults()
